@@ -284,6 +284,80 @@ func checkDictionary(t dictTarget, field string, auts []autSpec, a *run.Acc) str
 			}
 		}
 	}
+	// several live iterators of ONE dictionary object: every ordered pair over a sub-menu
+	// of 16 (automaton, range) configurations, stepped in lock step and nested (open A,
+	// one call, open B, drain B, drain A): each must return its own sequence
+	type cfg struct {
+		as         autSpec
+		start, end *string
+		want       []string
+	}
+	var cfgs []cfg
+	for _, ai := range []int{0, 9, 14, 21} { // match-all, prefix("a"), regexp("[ab]+"), levenshtein1("ab")
+		if ai >= len(auts) {
+			continue
+		}
+		for _, r := range [][2]*string{{nil, nil}, {sp("a"), nil}, {nil, sp("b")}, {sp("a0"), sp("c")}} {
+			c := cfg{as: auts[ai], start: r[0], end: r[1]}
+			for _, term := range terms {
+				if !c.as.accept(term) || (c.start != nil && term < *c.start) || (c.end != nil && term >= *c.end) {
+					continue
+				}
+				c.want = append(c.want, fmt.Sprintf("%q:%d", term, len(t.exp.Postings[field][term])))
+			}
+			cfgs = append(cfgs, c)
+		}
+	}
+	step := func(it segment.DictionaryIterator, got *[]string) (bool, error) {
+		e, err := it.Next()
+		if err != nil {
+			return false, err
+		}
+		if e == nil {
+			return false, nil
+		}
+		*got = append(*got, fmt.Sprintf("%q:%d", e.Term, e.Count))
+		return len(*got) <= 20, nil
+	}
+	for _, ca := range cfgs {
+		for _, cb := range cfgs {
+			for _, nested := range []bool{false, true} {
+				ita := dict.AutomatonIterator(ca.as.aut, bbytes(ca.start), bbytes(ca.end))
+				var ga, gb []string
+				var err error
+				moreA, moreB := true, true
+				if nested {
+					moreA, err = step(ita, &ga)
+				}
+				itb := dict.AutomatonIterator(cb.as.aut, bbytes(cb.start), bbytes(cb.end))
+				for err == nil && (moreA || moreB) {
+					if nested {
+						for err == nil && moreB {
+							moreB, err = step(itb, &gb)
+						}
+						for err == nil && moreA {
+							moreA, err = step(ita, &ga)
+						}
+						break
+					}
+					if moreA {
+						moreA, err = step(ita, &ga)
+					}
+					if err == nil && moreB {
+						moreB, err = step(itb, &gb)
+					}
+				}
+				a.Eval(1)
+				desc := fmt.Sprintf("two live iterators of one dictionary (nested=%v): A = %s [%s,%s), B = %s [%s,%s)", nested, ca.as.name, bstr(ca.start), bstr(ca.end), cb.as.name, bstr(cb.start), bstr(cb.end))
+				if err != nil {
+					return fmt.Sprintf("%s: iteration error %v", desc, err)
+				}
+				if strings.Join(ga, " ") != strings.Join(ca.want, " ") || strings.Join(gb, " ") != strings.Join(cb.want, " ") {
+					return fmt.Sprintf("%s: A returned %v, want %v; B returned %v, want %v", desc, ga, ca.want, gb, cb.want)
+				}
+			}
+		}
+	}
 	return ""
 }
 
@@ -291,7 +365,7 @@ func init() {
 	run.Register(&run.Def{
 		ID:          "C08",
 		Level:       "exploration",
-		Rule:        "bounded-exhaustive: every subset of a 6-term universe (empty term, a, ab, b, ba, 2-byte UTF-8) as the term set of a field x 4 postings patterns (all single-document; alternating 1 / 2-3 documents; all 2 documents; all single-document with frequency 0, i.e. no norm stored) x provenance {built, re-opened, merged once, merged twice} (merging turns single-document frequency-1 terms into single-hit dictionary entries, so the SEQUENCE of encodings met by the iterator's reused scratch list ranges over all patterns) x 25 automata (nil=match-all, exact(u) for every u and an absent term, 5 prefixes incl. a partial UTF-8 byte, 7 vellum regular expressions, 4 vellum Levenshtein distance-1 automata, never-matching) x every well-formed key range over 10 bounds (absent, equal to / between / below / above existing terms; start < end). Oracle: ascending byte order, exactly the accepted terms in range (acceptance decided independently by string functions, Go regexp and an edit-distance function), DictEntry.Count == postings size of that term, Contains for every term of the universe, Cardinality; fields without dictionary (absent field, synonym field) give empty results. Non-trivial = term set with >= 2 terms.",
+		Rule:        "bounded-exhaustive: every subset of a 6-term universe (empty term, a, ab, b, ba, 2-byte UTF-8) as the term set of a field x 4 postings patterns (all single-document; alternating 1 / 2-3 documents; all 2 documents; all single-document with frequency 0, i.e. no norm stored) x provenance {built, re-opened, merged once, merged twice} (merging turns single-document frequency-1 terms into single-hit dictionary entries, so the SEQUENCE of encodings met by the iterator's reused scratch list ranges over all patterns) x 25 automata (nil=match-all, exact(u) for every u and an absent term, 5 prefixes incl. a partial UTF-8 byte, 7 vellum regular expressions, 4 vellum Levenshtein distance-1 automata, never-matching) x every well-formed key range over 10 bounds (absent, equal to / between / below / above existing terms; start < end). Oracle: ascending byte order, exactly the accepted terms in range (acceptance decided independently by string functions, Go regexp and an edit-distance function), DictEntry.Count == postings size of that term, Contains for every term of the universe, Cardinality; several live iterators of one dictionary object (every ordered pair over 16 (automaton, range) configurations, stepped in lock step and nested) each return their own sequence; fields without dictionary (absent field, synonym field) give empty results. Non-trivial = term set with >= 2 terms.",
 		Assumptions: batchAssumptions,
 		Bounds:      map[string]string{"quick": "all 64 term sets x 4 patterns x 4 provenances x 25 automata x 64 ranges", "thorough": "additionally all 256 subsets of an 8-term universe (adds a longer term sharing a prefix and a term above all others) x the same patterns, provenances, automata and ranges"},
 		New:         func() interface{} { return &DictCase{} },
